@@ -269,6 +269,19 @@ def h_parse(eng, u):
             cv = (lambda t: float(t)) if not eng.symbolic else (lambda t: eng.num(Fraction(t)))
             _close(eng, mag.nominal_value, cv(nv), f"parse-paren:nominal:{text}")
             _close(eng, mag.std_dev, cv(sv), f"parse-paren:std:{text}")
+        # numbers written without a leading zero, with and without an exponent suffix
+        for text, nv, sv in ((f"(2.5 +/- .5)e-3 {u}", "0.0025", "0.0005"), (f"(.5 +/- .25)e2 {u}", "50", "25"), (f"8.0(.4)e2 {u}", "800", "40"), (f".5(1)e3 {u}", "500", "100"), (f"(2.5 +/- .5) {u}", "2.5", "0.5"), (f"8.0(.4) {u}", "8.0", "0.4"), (f"(0 +/- .5)e-3 {u}", "0", "0.0005")):
+            cv = (lambda t: float(t)) if not eng.symbolic else (lambda t: eng.num(Fraction(t)))
+            try:
+                q = ureg.parse_expression(text)
+            except (IndexError, ValueError, TypeError, AssertionError) as ex:
+                eng.fail(f"parse-leading-dot:{text.rsplit(' ', 1)[0]}:raises-{type(ex).__name__}", stop=False)
+                continue
+            mag = q.magnitude
+            eng.prove(hasattr(mag, "nominal_value"), f"parse-leading-dot:uncertain-magnitude:{text.rsplit(' ', 1)[0]}")
+            if hasattr(mag, "nominal_value"):
+                _close(eng, mag.nominal_value, cv(nv), f"parse-leading-dot:nominal:{text.rsplit(' ', 1)[0]}")
+                _close(eng, mag.std_dev, cv(sv), f"parse-leading-dot:std:{text.rsplit(' ', 1)[0]}")
         # an exponent suffix applies to the nominal value and to the error alike -- also when the
         # nominal mantissa is zero, which is how pint itself renders Measurement(0, 4e-05, u)
         for k, etext in ((-5, "e-05"), (3, "e+03"), (2, "e2")):
@@ -340,7 +353,7 @@ def h_correlations(eng):
         return math.isclose(a, b, rel_tol=1e-9, abs_tol=1e-12)
 
     def ve(r):
-        mag = r.magnitude
+        mag = getattr(r, "magnitude", r)
         return (mag.nominal_value, mag.std_dev) if hasattr(mag, "nominal_value") else (mag, 0.0)
 
     for fname, mk in forms.items():
@@ -359,6 +372,20 @@ def h_correlations(eng):
             P(close(n_, 0.0) and close(s_, 0.0), "m.to(u2)-m")
             n_, s_ = ve(m.to(u2).to(u) - m)
             P(close(n_, 0.0) and close(s_, 0.0), "m.to(u2).to(u)-m")
+            # a conversion to the unit it already has is still the same random variable
+            n_, s_ = ve(m.to(u) - m)
+            P(close(n_, 0.0) and close(s_, 0.0), "m.to(same-unit)-m")
+            n_, s_ = ve(m.to(m.units) + m)
+            P(close(n_, 2 * v) and close(s_, 2 * e), "m.to(m.units)+m:fully-correlated")
+            n_, s_ = ve(ureg.Quantity(m.magnitude, m.units).to(u) - m)
+            P(close(n_, 0.0) and close(s_, 0.0), "Quantity(ufloat).to(same-unit)-m")
+            if u in ("second", "meter", "kelvin"):
+                n_, s_ = ve(m.to_base_units() - m)
+                P(close(n_, 0.0) and close(s_, 0.0), "m.to_base_units()-m (already base)")
+                n_, s_ = ve(m.to_root_units() - m)
+                P(close(n_, 0.0) and close(s_, 0.0), "m.to_root_units()-m (already root)")
+                n_, s_ = ve(ureg.convert(m.magnitude, u, u) - m.magnitude)
+                P(close(n_, 0.0) and close(s_, 0.0), "ureg.convert(ufloat,u,u)-ufloat")
             n_, s_ = ve(m.to(u2) + m.to(u2))
             P(close(n_, 2 * v * k) and close(s_, 2 * e * k), "to+to:fully-correlated")
             t = mk(4.0, 0.25, "hour")
